@@ -359,6 +359,14 @@ def r12_subtractions(ctx, reach):
                     lo, hi, used = guard_bounds(body, cfg, conds, o, a, bi)
                     if lo is not None and lo >= cb:
                         guarded = True
+                # `x.len() - p` where p is a position found in that very x (find / position / a crate function handed x): what
+                # R20.13 accepts as an index into x is at most x.len()
+                if not guarded and is_call_term(a, "::len") and a[3] and isinstance(b, tuple) and b and b[0] == "call":
+                    xk = strip_bb(a[3][0])
+                    lastb = b[1].split("::")[-1]
+                    if (lastb in ("find", "rfind", "position", "rposition") or b[1].startswith(("client::", "server::", "util::", "session::", "padding::", "protocol::"))) \
+                            and any(strip_bb(a_) == xk for a_ in b[3]):
+                        guarded = True
                 ctx.ob("R20.12", "%s|sub#%d" % (ctx.P.owner(key), n), guarded, "%s:%s" % (st["span"].get("file", "?"), st["span"]["line"]),
                        "`%s - %s` is dominated by a comparison that excludes underflow" % (fmt(a)[:30], fmt(b)[:30]) if guarded else
                        "`%s - %s` (%s) on input-reachable code has no dominating guard: an input that makes the subtrahend larger panics the task that parses it (overflow checks on) or yields a length near 2^64 "
